@@ -38,5 +38,5 @@ MacroQuiescent == Quiescent(Cur)
 \* `out` only records what was written; it never influences a transition
 View == <<vec, count, curr, state, keepalive, idle, reqmsg, chan, wire, rq,
           rdead, wfail, wstall, peerOpen, handles, closed, asked, sent, done,
-          nsub, nframes>>
+          nsub, nframes, sconf, tsel>>
 =============================================================================
